@@ -28,7 +28,9 @@ RULE = ("Hypothesis draws a valid file (C01 generator) and optionally a fault: b
         "close() is silent; a read after close raises or returns the correct value. Non-trivial: a case in which some "
         "API call raised or an index file was present. The thorough tier adds an atheris (libFuzzer) campaign over raw bytes."
         " Caller streams include an unbuffered raw file object (checked again after the call's exception has been "
-        'released); when an index file exists it is also given directly as the path.')
+        'released); when an index file exists it is also given directly as the path.'
+        ' The TdmsFile constructor is exercised in its argument combinations (read_metadata_only, keep_open) with '
+        'close() and with-blocks; pathlib.Path sources are included.')
 ASSUMPTIONS = [
     "Linux /proc/self/fd accounting",
     "TdmsFile.open() itself raising is outside the statement (reported as a statistic)",
